@@ -96,16 +96,20 @@ def loSur (r : Nat) : Nat := 0xDC00 + ((r - 0x10000) &&& 0x3FF)
 
 def escRune (r : Nat) : List Nat := if r ≤ 0xFFFF then u4 r else u4 (hiSur r) ++ u4 (loSur r)
 
+/-- one iteration of the escaping loop at byte `b` (the rest of the input is `rest`); `next` is the loop
+    continued at a later index. `i += size` leaves `rest.drop (size - 1)` (`size > 0`). -/
+def escapeStep (next : List Nat → List Nat) (b : Nat) (rest : List Nat) : List Nat :=
+  if b ≥ 128 then
+    let (r, size) := decodeRune (b :: rest)
+    if size > 0 then escRune r ++ next (rest.drop (size - 1))
+    else u4 b ++ next rest
+  else b :: next rest
+
 /-- the escaping loop; `fuel` bounds the number of iterations (`escape` supplies the length) -/
 def escapeF : Nat → List Nat → List Nat
   | 0, _ => []
   | _, [] => []
-  | fuel + 1, b :: rest =>
-    if b ≥ 128 then
-      let (r, size) := decodeRune (b :: rest)
-      if size > 0 then escRune r ++ escapeF fuel ((b :: rest).drop size)
-      else u4 b ++ escapeF fuel rest
-    else b :: escapeF fuel rest
+  | fuel + 1, b :: rest => escapeStep (escapeF fuel) b rest
 
 def escape (l : List Nat) : List Nat := escapeF l.length l
 
